@@ -1,6 +1,6 @@
 #!/venv/bin/python
 """Generate the TLC configurations of the core spec (one family per property). Run from spec/core."""
-ALL = ["CreateGroup", "CreateObject", "AddData", "CreateWithUid", "Rename", "SetFlag", "SetVal", "Move", "MoveSame", "AddToGroup",
+ALL = ["CreateGroup", "CreateObject", "AddData", "CreateWithUid", "Rename", "SetFlag", "SetVal", "SetMeta", "Move", "MoveSame", "AddToGroup",
        "AddDataFails", "StripOpt", "SaveAs", "Helper", "Copy2", "Remove2", "ScrubData", "CreateDeferred", "PGWithUid",
        "RemoveFromGroup", "RemovePG", "RemoveViaWorkspace", "RemoveViaParent", "DropRef", "Collect", "Purge",
        "LookupDead", "Copy", "Close", "Open", "CallClosed"]
@@ -30,14 +30,14 @@ def minus(*drop):
 
 
 GC = ["DropRef", "Collect", "Purge", "LookupDead"]
-NEW = ["MoveSame", "AddDataFails", "StripOpt", "SaveAs", "Helper", "Copy2", "Remove2", "ScrubData", "CreateDeferred", "PGWithUid"]
+NEW = ["SetMeta", "MoveSame", "AddDataFails", "StripOpt", "SaveAs", "Helper", "Copy2", "Remove2", "ScrubData", "CreateDeferred", "PGWithUid"]
 BASE = minus("CreateWithUid", "CallClosed", *NEW)
 # --- C01: histories of create/assign/rename/move/copy/delete with close/re-open and GC points
 cfg("C01_quick", 1, 1, 1, 1, [a for a in BASE if a != "SetFlag"] + ["MoveSame", "CreateDeferred"], 6, names=("a",), vals=(1, 2))
 # property-group bookkeeping under list removals, in both orders (data in overlapping groups)
 cfg("C01pg_quick", 0, 1, 3, 2, ["CreateObject", "AddData", "AddToGroup", "ScrubData", "RemoveFromGroup", "Close", "Open"], 8,
     names=("a", "b"), vals=(1,))
-cfg("C01_thorough", 2, 1, 2, 1, BASE + ["MoveSame", "AddDataFails", "SaveAs", "CreateDeferred"], 6, names=("a", "b"))
+cfg("C01_thorough", 2, 1, 2, 1, BASE + ["MoveSame", "AddDataFails", "SaveAs", "CreateDeferred", "SetMeta"], 6, names=("a", "b"))
 # --- C02: layout of every closed file: removals, re-parenting, copies, failed writes, closes
 C02A = ["CreateGroup", "CreateObject", "AddData", "Move", "MoveSame", "AddToGroup", "RemoveViaWorkspace", "RemoveViaParent",
         "Copy", "Close", "Open", "AddDataFails"] + GC
@@ -65,7 +65,7 @@ cfg("C06x_quick", 1, 1, 1, 1, C06X, 8, names=("a",), vals=(1,))
 cfg("C06x_thorough", 2, 1, 2, 1, C06X + ["Close", "Open"], 6, names=("a",), vals=(1,))
 # --- C09: every single mutation applied to every reachable state; footprint; files with omitted optional attributes
 cfg("C09_quick", 1, 1, 1, 1, [a for a in BASE if a != "LookupDead"] + ["MoveSame", "StripOpt"], 6, names=("a", "b"), vals=(1, 2))
-cfg("C09_thorough", 2, 1, 2, 2, BASE + ["MoveSame", "StripOpt", "AddDataFails"], 6, names=("a", "b"), vals=(1, 2))
+cfg("C09_thorough", 2, 1, 2, 2, BASE + ["MoveSame", "StripOpt", "AddDataFails", "SetMeta"], 6, names=("a", "b"), vals=(1, 2))
 # --- C11: close / abort at every point (also after a failed operation), calls on a closed workspace, re-open,
 #          save_as, fetch_active_workspace re-opening in another mode
 C11A = ["CreateGroup", "CreateObject", "AddData", "SetVal", "Rename", "RemoveViaWorkspace", "RemoveViaParent", "Close", "Open",
@@ -73,8 +73,8 @@ C11A = ["CreateGroup", "CreateObject", "AddData", "SetVal", "Rename", "RemoveVia
 cfg("C11_quick", 1, 1, 1, 1, C11A, 5, names=("a", "b"))
 cfg("C11_thorough", 2, 1, 2, 1, C11A + ["Move", "Copy", "AddToGroup", "Collect", "DropRef"], 6, names=("a", "b"))
 # --- C12: copies of data / objects / groups, deep and shallow, then edits of copy and source, re-open
-C12A = ["CreateGroup", "CreateObject", "AddData", "AddToGroup", "Copy", "SetVal", "Rename", "Close", "Open"]
-cfg("C12_quick", 2, 2, 2, 2, C12A, 5, names=("a", "b"), vals=(1, 2))
+C12A = ["CreateGroup", "CreateObject", "AddData", "AddToGroup", "Copy", "SetVal", "SetMeta", "Rename", "Close", "Open"]
+cfg("C12_quick", 1, 2, 2, 1, C12A, 5, names=("a", "b"), vals=(1, 2))
 cfg("C12_thorough", 3, 2, 4, 2, C12A + ["SetFlag", "Move"], 6, names=("a", "b"), vals=(1, 2))
 C12X = ["CreateGroup", "CreateObject", "AddData", "AddToGroup", "Copy2", "Remove2", "SetVal", "Rename"]
 cfg("C12x_quick", 1, 1, 2, 1, C12X, 6, names=("a", "b"), vals=(1, 2))
